@@ -110,6 +110,62 @@ void pictureCase(Ctx& ctx, uint32_t h, int pal, int pix)
 	ctx.outcome(mc::fnv(expectBytes.data(), expectBytes.size()));
 }
 
+// pictures whose palette holds fewer than 256 entries (a tileset loaded from a standard bitmap that declares n used
+// colours keeps n entries): saving in the custom format must either be refused with an ordinary error or produce the
+// format's bytes for the picture with the palette padded to 256 black entries, which load back to the same rows and the
+// same first n colours. A file whose 1024-byte palette section is short is neither.
+void partialPaletteCase(Ctx& ctx, uint32_t h, std::size_t n, bool viaStandardBitmap)
+{
+	ref::RPicture p = makePicture(h, 0, 1);
+	for (auto& b : p.rowsTopDown) b = uint8_t(b % n);
+	ref::RPicture padded = p;
+	for (std::size_t i = n; i < 256; ++i) padded.palette[i] = ref::RColor{ 0, 0, 0, 0 };
+	std::string key = "height " + std::to_string(h) + " palette of " + std::to_string(n) + " entries" + (viaStandardBitmap ? " (loaded from a standard bitmap declaring that many used colours)" : " (set on the object)");
+	ctx.sub(key);
+	BitmapFile src = toBitmap(p, true);
+	src.palette.resize(n);
+	if (viaStandardBitmap) {
+		// through the library's own standard-bitmap reader: a bitmap whose used-colour field is n
+		ref::RBmp b; b.depth = 8; b.width = 32; b.height = -int32_t(h); b.usedColors = uint32_t(n);
+		for (std::size_t i = 0; i < n; ++i) b.palette.push_back({ p.palette[i].r, p.palette[i].g, p.palette[i].b, p.palette[i].a });
+		b.rows = p.rowsTopDown;
+		auto ol = mc::guarded([&] { src = loadFrom(ref::encodeBmp(b)); });
+		ctx.transition();
+		if (ol.cls != 'R') { ctx.count("partial-palette/standard-bitmap-refused"); return; }
+		if (src.palette.size() != n) { ctx.count("partial-palette/reader-grew-the-palette"); }
+		// the picture is what the loaded object shows (which channel of a standard bitmap lands in which Color member is C08's subject)
+		for (std::size_t i = 0; i < 256; ++i) {
+			ref::RColor c = i < src.palette.size() ? ref::RColor{ src.palette[i].red, src.palette[i].green, src.palette[i].blue, src.palette[i].alpha } : ref::RColor{ 0, 0, 0, 0 };
+			p.palette[i] = c; padded.palette[i] = c;
+		}
+		n = std::min<std::size_t>(n, src.palette.size());
+	}
+	Stream::DynamicMemoryWriter w;
+	auto o = mc::guarded([&] { Tileset::WriteCustomTileset(w, src); });
+	ctx.transition();
+	if (o.cls == 'X') { ctx.violation("C09/partial-palette/non-std-exception", key, ""); return; }
+	if (o.cls != 'R') { ctx.count("partial-palette/save-refused"); return; }
+	ctx.count("partial-palette/saved");
+	auto bytes = drain(w);
+	auto expect = ref::encodeCustomTileset(padded);
+	if (bytes.size() != expect.size()) { ctx.violation("C09/partial-palette/custom-file-malformed", key, "wrote " + std::to_string(bytes.size()) + " bytes; the format's sections (1024-byte palette) need " + std::to_string(expect.size())); return; }
+	// the first n colours and everything outside the palette must match the format description; padding entries are not judged
+	auto a = bytes, e = expect;
+	std::size_t palStart = e.size() - 32 * std::size_t(h) - 8 - 1024;
+	for (std::size_t i = palStart + 4 * n; i < palStart + 1024; ++i) a[i] = e[i] = 0;
+	if (a != e) { std::size_t i = 0; while (i < a.size() && a[i] == e[i]) ++i; ctx.violation("C09/partial-palette/custom-bytes-differ-from-format-description", key, "first difference at byte " + std::to_string(i)); return; }
+	BitmapFile back;
+	auto ol = mc::guarded([&] { back = loadFrom(bytes); });
+	ctx.transition();
+	if (ol.cls != 'R') { ctx.violation("C09/partial-palette/load-custom-rejected", key, ol.what); return; }
+	ref::RPicture seen; std::string why;
+	if (!visual(back, seen, why)) { ctx.violation("C09/partial-palette/load-custom-not-a-tileset-picture", key, why); return; }
+	bool same = seen.height == p.height && seen.rowsTopDown == p.rowsTopDown;
+	for (std::size_t i = 0; i < n && same; ++i) if (!(seen.palette[i] == p.palette[i])) same = false;
+	if (!same) ctx.violation("C09/partial-palette/load-custom-different-picture", key, "");
+	ctx.state(); ctx.trace();
+}
+
 // signature detection ------------------------------------------------------------------------------
 void signatures(Ctx& ctx)
 {
@@ -197,6 +253,7 @@ void build(Ctx& ctx)
 	for (uint32_t h : hs) for (int pal = 0; pal < 3; ++pal) for (int pix = 0; pix < 2; ++pix) gCases.push_back({ 0, h, pal, pix });
 	gCases.push_back({ 1, 0, 0, 0 });
 	gCases.push_back({ 2, 0, 0, 0 });
+	gCases.push_back({ 3, 0, 0, 0 });
 }
 
 void runCase(std::size_t i, Ctx& ctx)
@@ -204,6 +261,7 @@ void runCase(std::size_t i, Ctx& ctx)
 	const CaseDef& c = gCases[i];
 	if (c.kind == 0) { pictureCase(ctx, c.h, c.pal, c.pix); if (c.h == 64 && c.pal == 0 && c.pix == 1) ctx.sample("picture 32x64, distinct palette (r != b), hashed pixels: both orientations -> custom bytes == format description, load(custom) and load(standard) show the same picture"); }
 	else if (c.kind == 1) signatures(ctx);
+	else if (c.kind == 3) { for (uint32_t h : { 32u, 64u }) for (std::size_t n : { std::size_t(1), std::size_t(2), std::size_t(16), std::size_t(200), std::size_t(255), std::size_t(256) }) for (int via = 0; via < 2; ++via) partialPaletteCase(ctx, h, n, via != 0); }
 	else refusals(ctx);
 }
 
